@@ -17,9 +17,11 @@ import (
 	"bytes"
 	"encoding/hex"
 	"encoding/json"
+	"errors"
 	"flag"
 	"fmt"
 	"net"
+	"net/netip"
 	"os"
 	"os/exec"
 	"path/filepath"
@@ -99,19 +101,24 @@ type CaseOut struct {
 	ID   int    `json:"id"`
 	N    int    `json:"n"`
 	CaseIn
-	SrcIPIn  *string `json:"srcip_in"`  // hex of what pflag's net.ParseIP makes of --srcip; null = absent
-	SrcMACIn *string `json:"srcmac_in"` // hex of net.ParseMAC(--srcmac); null = absent
-	DstNil   bool    `json:"dst_nil"`
-	DstIP    string  `json:"dst_ip"` // hex of the IPNet ip.ParseIPNet produced
-	DstMask  string  `json:"dst_mask"`
-	Err      string  `json:"err"` // "", srciface, srcip, srcmac, other
-	ErrText  string  `json:"errtext"`
-	IfIndex  int     `json:"ifindex"`
-	IfName   string  `json:"ifname"`
-	SrcIP    *string `json:"srcip_out"`  // null = nil SrcIP
-	SrcMAC   *string `json:"srcmac_out"` // null = nil SrcMAC
-	VPN      bool    `json:"vpn"`
-	GwMAC    *string `json:"gwmac"`
+	SrcIPIn    *string `json:"srcip_in"`  // hex of what pflag's net.ParseIP makes of --srcip; null = absent
+	SrcMACIn   *string `json:"srcmac_in"` // hex of net.ParseMAC(--srcmac); null = absent
+	DstNil     bool    `json:"dst_nil"`
+	DstIP      string  `json:"dst_ip"` // hex of the IPNet ip.ParseIPNet produced
+	DstMask    string  `json:"dst_mask"`
+	DstRefused bool    `json:"dst_refused"` // the real ip.ParseIPNet refused the argument
+	TxtKind    string  `json:"txt_kind"`    // "", "cidr" (net.ParseCIDR ok), "addr" (netip.ParseAddr ok), "junk"
+	TxtIs4     bool    `json:"txt_is4"`
+	TxtIP      string  `json:"txt_ip"`
+	TxtMask    string  `json:"txt_mask"`
+	Err        string  `json:"err"` // "", srciface, srcip, srcmac, badtarget, other
+	ErrText    string  `json:"errtext"`
+	IfIndex    int     `json:"ifindex"`
+	IfName     string  `json:"ifname"`
+	SrcIP      *string `json:"srcip_out"`  // null = nil SrcIP
+	SrcMAC     *string `json:"srcmac_out"` // null = nil SrcMAC
+	VPN        bool    `json:"vpn"`
+	GwMAC      *string `json:"gwmac"`
 	// entry 2 only: frames seen on the wire (peer end of the chosen veth)
 	Wire *WireOut `json:"wire,omitempty"`
 }
@@ -122,7 +129,7 @@ type WireOut struct {
 	SrcMACs []string `json:"src_macs"`
 	ArpSHA  []string `json:"arp_sha"`
 	ArpSPA  []string `json:"arp_spa"`
-	Others  []string `json:"others"` // interfaces the probes left through
+	Others  []string `json:"others"`            // interfaces the probes left through
 	Garbage []string `json:"garbage,omitempty"` // what was read from tun devices and is no IPv4 packet
 }
 
@@ -300,11 +307,21 @@ func runCase(id, n int, ci CaseIn, cacheFile string, ifs []IfaceOut) CaseOut {
 	}
 	if ci.Target == "" {
 		o.DstNil = true
-	} else if dst, err := sxip.ParseIPNet(ci.Target); err == nil {
-		o.DstIP, o.DstMask = hex.EncodeToString(dst.IP), hex.EncodeToString(dst.Mask)
 	} else {
-		o.Err, o.ErrText = "other", "target: "+err.Error()
-		return o
+		// what Go's parsers make of the argument (the model's input) ...
+		if _, n, err := net.ParseCIDR(ci.Target); err == nil {
+			o.TxtKind, o.TxtIP, o.TxtMask = "cidr", hex.EncodeToString(n.IP), hex.EncodeToString(n.Mask)
+		} else if a, err := netip.ParseAddr(ci.Target); err == nil {
+			o.TxtKind, o.TxtIs4, o.TxtIP = "addr", a.Is4(), hex.EncodeToString(a.AsSlice())
+		} else {
+			o.TxtKind = "junk"
+		}
+		// ... and what the real ParseIPNet decides on it
+		if dst, err := sxip.ParseIPNet(ci.Target); err == nil {
+			o.DstIP, o.DstMask = hex.EncodeToString(dst.IP), hex.EncodeToString(dst.Mask)
+		} else {
+			o.DstRefused = true
+		}
 	}
 	var res command.VerifC17Result
 	switch ci.Entry {
@@ -327,6 +344,9 @@ func runCase(id, n int, ci CaseIn, cacheFile string, ifs []IfaceOut) CaseOut {
 	o.Err = res.ErrClass
 	if res.Err != nil {
 		o.ErrText = res.Err.Error()
+		if errors.Is(res.Err, sxip.ErrInvalidAddr) {
+			o.Err = "badtarget"
+		}
 		return o
 	}
 	o.IfIndex, o.IfName = res.IfaceIndex, res.IfaceName
